@@ -58,8 +58,11 @@ def abmfOp (st : Abmf.Store) : Tok → Abmf.Store × String
          | none => 0)
        (st', s!"conc answers={answers} granted={granted} spent={spent} {dumpStore st'}")
      | _, _, _, _, _, _ => (st, "bad-op"))
-  | ["ccr", sess, ty, num, act, subT, sub, rg, rsu, usu, _e2e] =>
-    -- a chosen End-to-End Identifier: the answer and the effect do not depend on it
+  | ["ccr", sess, ty, num, act, subT, sub, rg, rsu, usu, _x] =>
+    -- a chosen End-to-End Identifier (`e<id>`) or a Service-Identifier in the MSCC (`v<id>`): the answer and the effect do not
+    -- depend on either (the account is named by the Rating-Group)
+    abmfOp st ["ccr", sess, ty, num, act, subT, sub, rg, rsu, usu]
+  | ["ccr", sess, ty, num, act, subT, sub, rg, rsu, usu, _x, _y] =>
     abmfOp st ["ccr", sess, ty, num, act, subT, sub, rg, rsu, usu]
   | ["ccr", sess, ty, num, act, subT, sub, rg, rsu, usu] =>
     -- `0-`: the Requested-Action AVP is absent; the server decodes the zero value
